@@ -527,16 +527,20 @@ fn ls(dir: &Path) -> BTreeSet<String> {
     std::fs::read_dir(dir).map(|rd| rd.flatten().map(|e| e.file_name().to_string_lossy().to_string()).collect()).unwrap_or_default()
 }
 
+pub type AfterSession = Box<dyn FnMut(&HistoryObs, usize) -> Result<(), String> + Send>;
+
 pub struct RunOpts {
     /// fault plan per session index (missing = none)
     pub plans: BTreeMap<usize, FaultPlan>,
     /// stop the history after the first session that does not finalize successfully
     pub stop_on_failure: bool,
+    /// oracle hook evaluated after every session (store inspection between sessions)
+    pub after_session: Option<AfterSession>,
 }
 
 impl Default for RunOpts {
     fn default() -> Self {
-        RunOpts { plans: BTreeMap::new(), stop_on_failure: true }
+        RunOpts { plans: BTreeMap::new(), stop_on_failure: true, after_session: None }
     }
 }
 
@@ -596,7 +600,7 @@ async fn clean_one(
     (n_calls, add_err, fin)
 }
 
-async fn run_history_async(h: History, opts: RunOpts, tp: Arc<ThreadPool>) -> Result<HistoryObs, String> {
+async fn run_history_async(h: History, mut opts: RunOpts, tp: Arc<ThreadPool>) -> Result<HistoryObs, String> {
     let conf = Conf::active();
     let pool = Arc::new(ChunkPool::new(conf.params(), h.pool_seed));
     let base = tempfile::Builder::new().prefix("xvs-").tempdir_in(crate::engine::work_dir()).map_err(|e| format!("[sig:infra] tempdir: {e}"))?;
@@ -673,6 +677,9 @@ async fn run_history_async(h: History, opts: RunOpts, tp: Arc<ThreadPool>) -> Re
             shards_after: ls(&shard_dir),
             cache_shards_after: ls(&cache_dir),
         });
+        if let Some(cb) = opts.after_session.as_mut() {
+            cb(&obs, si)?;
+        }
         if failed && opts.stop_on_failure {
             break;
         }
